@@ -94,6 +94,8 @@ def run_tlc(workdir, module, cfg=None, env=None, workers=4, timeout=900, simulat
         e.update({k: str(v) for k, v in env.items()})
     cmd = ["timeout", str(timeout), "tlc", "-workers", str(workers), "-metadir", meta, "-cleanup",
            "-noGenerateSpecTE", "-config", cfg + ".cfg"]
+    if deque:
+        cmd += ["-checkpoint", "0"]        # (the depth-first queue cannot be checkpointed; TLC would abort a long validation after 30 min)
     if coverage:
         cmd += ["-coverage", "1"]
     cmd += ["-seed", str(seed())]          # RandomSubset / simulation draw from VERIF_SEED
